@@ -50,10 +50,7 @@ def smul_axioms():
     return [z3.ForAll([w], smul(0, w) == 0, patterns=[smul(0, w)]),
             z3.ForAll([q, r, w], z3.Implies(z3.And(0 <= q, q < r, w >= 0), smul(q, w) + w <= smul(r, w)),
                       patterns=[z3.MultiPattern(smul(q, w), smul(r, w))]),
-            z3.ForAll([q, w], z3.Implies(z3.And(q >= 0, w >= 0), smul(q, w) >= 0), patterns=[smul(q, w)]),
-            # dividing the offset of record q by the record size gives q back (integer division, no remainder)
-            z3.ForAll([q, w], z3.Implies(z3.And(q >= 0, w >= 1), z3.And(smul(q, w) / w == q, smul(q, w) % w == 0)),
-                      patterns=[smul(q, w)])]
+            z3.ForAll([q, w], z3.Implies(z3.And(q >= 0, w >= 0), smul(q, w) >= 0), patterns=[smul(q, w)])]
 
 
 def smul_validate():
@@ -67,8 +64,6 @@ def smul_validate():
                 bad.append(("unfold", q, w))
             if f(q + 1, w) != f(q, w) + w or f(q, w) < 0:
                 bad.append(("step", q, w))
-            if w >= 1 and (f(q, w) // w != q or f(q, w) % w != 0):
-                bad.append(("div", q, w))
             for r in range(q + 1, 13):
                 cases += 1
                 if not f(q, w) + w <= f(r, w):
